@@ -164,7 +164,7 @@ func (cf *config) opts() []uio.DirectoryOption {
 func main() { initCands(); vlib.Run("C15", run) }
 
 func run(c *vlib.Ctx) {
-	c.Rule("histories of 10-60 AddChild(add/replace)/RemoveChild(present/missing) over a pool of 9-14 names (murmur3-prefix collision groups 2-4 levels deep and one pair sharing >=30 hash bits, a 1-byte and a 300-byte name) x 6 child node forms, on pure Basic (maxLinks 0..8), pure HAMT (width 8..1024) and Dynamic directories (tiny global/per-directory thresholds, maxLinks 0..8, 3 estimation modes); after every op Find(each pool name)+Links+ForEachLink+EnumLinksAsync vs the map model; reload from GetNode() every 3-15 ops; distinct = FNV of config+op list; non-trivial = after a reload, a present name is removed from a HAMT-backed directory while another present name shares its first-level bucket (sub-shard collapse path)")
+	c.Rule("histories of 10-60 AddChild(add/replace)/RemoveChild(present/missing) over a pool of 9-14 names (murmur3-prefix collision groups 2-4 levels deep and one pair sharing >=30 hash bits, a 1-byte and a 300-byte name) x 6 child node forms, on pure Basic (maxLinks 0..8), pure HAMT (width 8..1024) and Dynamic directories (tiny global/per-directory thresholds, maxLinks 0..8, 3 estimation modes); after every op Find(each pool name)+Links+ForEachLink+EnumLinksAsync vs the map model; reload from GetNode() every 3-15 ops; stratum fault: pure/dynamic HAMT-backed directories (width 8/16) over a fault-injecting DAGService: 1/3 of the AddChild calls run with failing Add (failed call => model unchanged, live object and reloaded root compared with the model), then one sub-shard of the stored tree is made unreadable and EnumLinksAsync/Links/ForEachLink/Find run on cold copies (error or complete result required); distinct = FNV of config+op list; non-trivial = after a reload, a present name is removed from a HAMT-backed directory while another present name shares its first-level bucket (sub-shard collapse path)")
 	// Strata. "dyn" has no MaxLinks; "dyn-ml" has MaxLinks but reloads only while
 	// the directory is basic; "dyn-ml-reload" reloads at any time, which can
 	// trigger the known finding hamt-reload-undercount/maxlinks-reached (a HAMT
@@ -175,6 +175,13 @@ func run(c *vlib.Ctx) {
 	c.Cases("dyn", c.N(300, 2500), func(k *vlib.Case) { oneHistory(k, "dyn") })
 	c.Cases("dyn-ml", c.N(250, 1800), func(k *vlib.Case) { oneHistory(k, "dyn-ml") })
 	c.Cases("dyn-ml-reload", c.N(250, 1800), func(k *vlib.Case) { oneHistory(k, "dyn-ml-reload") })
+	// fault: HAMT-backed directories over a DAG service with injected faults:
+	// (a) Add fails during AddChild: the failed call must leave Links/Find/... of
+	// the live object and of the root reloaded from GetNode() equal to the model
+	// before the call; (b) Get/GetMany fails for one not-yet-loaded sub-shard of
+	// a directory reloaded from its root: each enumeration API must report an
+	// error or deliver the complete model set (never fewer entries with a nil error).
+	c.Cases("fault", c.N(300, 3000), faultHistory)
 }
 
 type ent struct {
@@ -716,5 +723,235 @@ func (w *world) checkOn(d uio.Directory, prefix string) {
 				}
 			}
 		}
+	}
+}
+
+// ---------------------------------------------------------------- fault stratum
+
+type faultDS struct {
+	ipld.DAGService
+	failAdd  bool
+	addFired int
+	failGet  map[string]bool
+	getFired int
+}
+
+var errInjectedAdd = errors.New("verif: injected DAGService.Add failure")
+var errInjectedGet = errors.New("verif: injected DAGService.Get failure")
+
+func (f *faultDS) Add(ctx context.Context, nd ipld.Node) error {
+	if f.failAdd {
+		f.addFired++
+		return errInjectedAdd
+	}
+	return f.DAGService.Add(ctx, nd)
+}
+
+func (f *faultDS) AddMany(ctx context.Context, nds []ipld.Node) error {
+	if f.failAdd {
+		f.addFired++
+		return errInjectedAdd
+	}
+	return f.DAGService.AddMany(ctx, nds)
+}
+
+func (f *faultDS) Get(ctx context.Context, c cid.Cid) (ipld.Node, error) {
+	if f.failGet[c.KeyString()] {
+		f.getFired++
+		return nil, errInjectedGet
+	}
+	return f.DAGService.Get(ctx, c)
+}
+
+func (f *faultDS) GetMany(ctx context.Context, cs []cid.Cid) <-chan *ipld.NodeOption {
+	out := make(chan *ipld.NodeOption, len(cs))
+	for _, c := range cs {
+		n, err := f.Get(ctx, c)
+		out <- &ipld.NodeOption{Node: n, Err: err}
+	}
+	close(out)
+	return out
+}
+
+// subShards collects the CIDs of all sub-shard nodes below a stored HAMT root
+// (links whose name is only the index prefix), reading through the plain DAG service.
+func subShards(ds ipld.DAGService, root ipld.Node, pad int, out *[]cid.Cid) {
+	for _, l := range root.Links() {
+		if len(l.Name) == pad {
+			*out = append(*out, l.Cid)
+			if nd, err := ds.Get(context.Background(), l.Cid); err == nil {
+				subShards(ds, nd, pad, out)
+			}
+		}
+	}
+}
+
+func faultHistory(k *vlib.Case) {
+	r := k.R
+	ctx := context.Background()
+	plain := mdtest.Mock()
+	fds := &faultDS{DAGService: plain, failGet: map[string]bool{}}
+	kind := vlib.Pick(r, []string{"hamt", "dyn"})
+	cf := &config{kind: kind, width: vlib.Pick(r, []int{8, 8, 8, 16}), mode: uio.SizeEstimationLinks, thresh: r.Range(40, 120), perDir: true}
+	k.Logf("config stratum=fault kind=%s width=%d mode=links threshold=%d perDir=true", kind, cf.width, cf.thresh)
+	w := &world{k: k, ctx: ctx, ds: fds, cf: cf, model: map[string]ent{}}
+	lg := bits.TrailingZeros(uint(cf.width))
+	w.pool = append(w.pool, group(r, r.Range(2, 4), lg*r.Range(1, 3))...)
+	w.pool = append(w.pool, group(r, 2, lg*2)...)
+	for len(w.pool) < 12 {
+		w.pool = append(w.pool, "q"+strconv.Itoa(r.Intn(100000)))
+	}
+	seen := map[string]bool{}
+	uniq := w.pool[:0]
+	for _, n := range w.pool {
+		if !seen[n] {
+			seen[n] = true
+			uniq = append(uniq, n)
+		}
+	}
+	w.pool = uniq
+	k.Logf("pool %s", describePool(w.pool))
+	children := mkChildren(r, plain)
+
+	var err error
+	if kind == "hamt" {
+		w.dir, err = uio.NewHAMTDirectory(fds, 0, cf.opts()...)
+	} else {
+		w.dir, err = uio.NewDirectory(fds, cf.opts()...)
+		if err == nil {
+			w.dir.SetHAMTShardingSize(cf.thresh)
+		}
+	}
+	if err != nil {
+		w.fail("construct-error", "directory constructor succeeds", "nil", err.Error())
+		return
+	}
+
+	// (a) history with failing writes
+	failedWhileHamt := 0
+	n := r.Range(12, 30)
+	for i := 0; i < n && !w.diverged; i++ {
+		name := vlib.Pick(r, w.pool)
+		_, present := w.model[name]
+		impl := w.impl()
+		if present && r.Chance(1, 4) {
+			k.Logf("RemoveChild %s (impl=%s)", short(name), impl)
+			if err := w.dir.RemoveChild(ctx, name); err != nil {
+				w.fail("remove-present-error/"+impl, "RemoveChild(present) succeeds", "nil", err.Error())
+				break
+			}
+			delete(w.model, name)
+			w.checkOn(w.dir, "")
+			continue
+		}
+		ch := vlib.Pick(r, children)
+		inject := r.Chance(1, 3)
+		k.Logf("AddChild %s <- %s (present=%v impl=%s injectedAddFailure=%v)", short(name), ch.desc, present, impl, inject)
+		fds.failAdd, fds.addFired = inject, 0
+		var err error
+		completed := false
+		ok := vlib.Guard(k, "AddChild", 60*time.Second, func() { err = w.dir.AddChild(ctx, name, ch.nd); completed = true })
+		fds.failAdd = false
+		if !ok || !completed {
+			w.diverged = true
+			break
+		}
+		switch {
+		case err != nil && inject && fds.addFired > 0:
+			// failed by the write fault: nothing may have changed
+			k.C.Count("faulted_adds", 1)
+			if impl == "hamt" {
+				failedWhileHamt++
+			}
+			w.checkOn(w.dir, "failed-add-")
+			if stored := w.snapshot(); stored != nil {
+				if cp := w.load(stored); cp != nil {
+					w.checkOn(cp, "failed-add-reload-")
+				}
+			}
+		case err != nil:
+			w.fail("add-error/"+impl, "AddChild succeeds", "nil", err.Error())
+		default:
+			w.model[name] = ent{ch.c, ch.size}
+			w.checkOn(w.dir, "")
+		}
+	}
+	if w.diverged {
+		return
+	}
+
+	// (b) unreadable sub-shard of the stored tree
+	readFaultRun := false
+	stored := w.snapshot()
+	if stored != nil && w.impl() == "hamt" {
+		var subs []cid.Cid
+		subShards(plain, stored, len(fmt.Sprintf("%X", cf.width-1)), &subs)
+		if len(subs) > 0 {
+			bad := vlib.Pick(r, subs)
+			k.Logf("read fault: sub-shard %s of the stored tree (%d entries, %d sub-shards) is unreadable; 4 cold copies are enumerated", bad, len(w.model), len(subs))
+			fds.failGet[bad.KeyString()] = true
+			readFaultRun = true
+			want := w.modelSet()
+			judge := func(api string, got []string, err error) {
+				k.C.Count("read_fault_enumerations", 1)
+				if err != nil {
+					k.C.Count("read_fault_enumerations_reporting_error", 1)
+					return
+				}
+				if df := diff(want, got); df != "" {
+					k.Fail("read-fault/"+api+"-incomplete-nil-error", api+" under an unreadable sub-shard reports an error or the complete listing",
+						fmt.Sprintf("error, or all %d entries", len(want)), fmt.Sprintf("nil error, %d entries: %s", len(got), df))
+				}
+			}
+			if cp := w.load(stored); cp != nil {
+				var got []string
+				var e error
+				vlib.Guard(k, "EnumLinksAsync", 60*time.Second, func() {
+					for lr := range cp.EnumLinksAsync(ctx) {
+						if lr.Err != nil {
+							e = lr.Err
+							continue
+						}
+						got = append(got, linkKey(lr.Link))
+					}
+				})
+				judge("EnumLinksAsync", got, e)
+			}
+			if cp := w.load(stored); cp != nil {
+				links, e := cp.Links(ctx)
+				var got []string
+				for _, l := range links {
+					got = append(got, linkKey(l))
+				}
+				judge("Links", got, e)
+			}
+			if cp := w.load(stored); cp != nil {
+				var got []string
+				e := cp.ForEachLink(ctx, func(l *ipld.Link) error { got = append(got, linkKey(l)); return nil })
+				judge("ForEachLink", got, e)
+			}
+			if cp := w.load(stored); cp != nil {
+				for name, en := range w.model {
+					nd, e := cp.Find(ctx, name)
+					if e == nil && !nd.Cid().Equals(en.c) {
+						k.Fail("read-fault/find-wrong", "Find under an unreadable sub-shard reports an error or the entry", en.c.String(), nd.Cid().String())
+					}
+				}
+				for _, name := range w.pool {
+					if _, in := w.model[name]; !in {
+						if nd, e := cp.Find(ctx, name); e == nil {
+							k.Fail("read-fault/find-phantom", "Find(missing) under an unreadable sub-shard does not succeed", "error", nd.Cid().String())
+						}
+					}
+				}
+			}
+			delete(fds.failGet, bad.KeyString())
+		}
+	}
+	if failedWhileHamt > 0 && readFaultRun {
+		k.Nontrivial()
+	}
+	if readFaultRun {
+		k.C.Count("histories_with_read_fault", 1)
 	}
 }
